@@ -179,6 +179,20 @@ class Database(Version):
 
             calculated_size_in_pages = self.file_handle.file_size / self.page_size
 
+            # The file may be padded beyond the database size (see above) but cannot hold more pages than it has bytes for
+            if self.database_header.database_size_in_pages >= calculated_size_in_pages + 1:
+                log_message = (
+                    "The database header database size in pages: {} is larger than the number of pages: {} the file "
+                    "can hold for version: {}."
+                )
+                log_message = log_message.format(
+                    self.database_header.database_size_in_pages,
+                    calculated_size_in_pages,
+                    self.version_number,
+                )
+                self._logger.error(log_message)
+                raise DatabaseParsingError(log_message)
+
             if self.database_header.database_size_in_pages != calculated_size_in_pages:
 
                 # Set the database size in pages to the database header size in pages
